@@ -463,6 +463,13 @@ func (m *TermVote) Step(c *sim.Cluster) *common.Violation {
 			m.term(i, v.Term, "status")
 		}
 		m.stBefore[i] = *n.St
+		// a vote that was granted in the term the storage still holds must still be
+		// in the storage: otherwise a crash now would let the node vote again
+		if n.St.Valid && m.pending == nil {
+			if cand, ok := m.granted[[2]uint64{uint64(i), n.St.Term}]; ok && n.St.Vote != cand {
+				m.pending = viol("C08", "granted-vote-erased-from-storage", "n%d granted its term-%d vote to %s but its storage now holds (%d,%q)", i, n.St.Term, cand, n.St.Term, n.St.Vote)
+			}
+		}
 	}
 	p := m.pending
 	m.pending = nil
